@@ -42,22 +42,44 @@ func runC05(e *Engine, r *Report) {
 		if fnPkg(fn) != e.pkgTypes("internal/rsm") || !e.IsLive(fn) {
 			continue
 		}
-		if len(e.SitesIn(fn, upReq)) == 0 {
-			continue
-		}
-		// fn decides (session lookup, duplicate test); the update itself may
-		// sit in fn or in a helper it calls
+		// fn decides (session lookup, duplicate test) and updates: both may sit in
+		// fn or in helpers it calls; take the innermost function whose region has both
 		decide := fn
 		region := e.regionOf(decide, 2)
 		updFns := map[*ssa.Function]bool{}
 		var sites []ssa.CallInstruction
+		var testFns []*ssa.Function
 		for _, g := range region {
 			for _, s := range e.MethodSitesIn(g, mgrUpdate) {
 				sites = append(sites, s)
 				updFns[g] = true
 			}
+			if len(e.SitesIn(g, upReq)) > 0 {
+				testFns = append(testFns, g)
+			}
 		}
-		if len(sites) == 0 {
+		if len(sites) == 0 || len(testFns) == 0 {
+			continue
+		}
+		innermost := true
+		for _, g := range region {
+			if g == fn || g.Parent() != nil {
+				continue
+			}
+			hasU, hasT := false, false
+			for _, h := range e.regionOf(g, 2) {
+				if len(e.MethodSitesIn(h, mgrUpdate)) > 0 {
+					hasU = true
+				}
+				if len(e.SitesIn(h, upReq)) > 0 {
+					hasT = true
+				}
+			}
+			if hasU && hasT {
+				innermost = false
+			}
+		}
+		if !innermost {
 			continue
 		}
 		reachesUpdate := func(x ssa.Instruction) bool {
@@ -130,52 +152,87 @@ func runC05(e *Engine, r *Report) {
 					"the recorded response is the state machine's result keyed by the entry's series id", "the recorded response is not the update's result keyed by the entry's series id")
 			}
 			// the watermark is advanced before the dedup test
-			for _, us := range e.SitesIn(decide, upReq) {
-				okd := false
-				for _, ws := range e.SitesIn(decide, upResp) {
-					if dominatesInstr(ws.(ssa.Instruction), us.(ssa.Instruction)) {
-						okd = true
+			for _, tf := range testFns {
+				for _, us := range e.SitesIn(tf, upReq) {
+					okd := false
+					for _, ws := range e.SitesIn(tf, upResp) {
+						if dominatesInstr(ws.(ssa.Instruction), us.(ssa.Instruction)) {
+							okd = true
+						}
 					}
+					if !okd {
+						// the watermark is advanced by the caller before the helper holding the test runs
+						isResp := func(x ssa.Instruction) bool {
+							c, ok := x.(*ssa.Call)
+							return ok && e.CallsTo(c, upResp)
+						}
+						okd, _ = e.alwaysPrecededBy(us.(ssa.Instruction), isResp, 2)
+					}
+					r.check(okd, "MPT-session-record", "UpdateRespondedTo precedes UpdateRequired in "+fname(tf), e.ipos(us),
+						"acknowledged results are discarded before the duplicate test", "the responded-to watermark is no longer advanced before the duplicate test")
 				}
-				r.check(okd, "MPT-session-record", "UpdateRespondedTo precedes UpdateRequired in "+fname(decide), e.ipos(us),
-					"acknowledged results are discarded before the duplicate test", "the responded-to watermark is no longer advanced before the duplicate test")
 			}
 		}
 		// the not-registered edge returns rejected without reaching the SM
-		forEachInstr(fn, func(in ssa.Instruction) {
-			ifi, ok := in.(*ssa.If)
-			if !ok {
-				return
+		for _, tfn := range e.regionOf(fn, 2) {
+			fn := tfn
+			// which result of fn carries `rejected`: result #2 of the 4-result update function,
+			// or the result of a helper that the update function returns as its #2
+			rejIdx := -1
+			if fn.Signature.Results().Len() == 4 {
+				rejIdx = 2
+			} else {
+				for _, cs := range e.CallerSites(fn) {
+					c, ok := cs.(*ssa.Call)
+					if !ok || c.Parent().Signature.Results().Len() != 4 || c.Referrers() == nil {
+						continue
+					}
+					forEachInstr(c.Parent(), func(x ssa.Instruction) {
+						ret, ok := x.(*ssa.Return)
+						if !ok || len(ret.Results) != 4 {
+							return
+						}
+						if ex, ok := retOperand(ret, 2).(*ssa.Extract); ok && ex.Tuple == ssa.Value(c) {
+							rejIdx = ex.Index
+						}
+					})
+				}
 			}
-			if !extractOf(reg, 1)(ifi.Cond) {
-				return
-			}
-			fsucc := in.Block().Succs[1]
-			if len(fsucc.Instrs) == 0 {
-				return
-			}
-			res := e.findPath(fn, fsucc.Instrs[0], reachesUpdate, nil, nil)
-			if reachesUpdate(fsucc.Instrs[0]) {
-				res.Found = true
-			}
-			r.check(!res.Found, "GD-session", "unknown session never reaches the state machine in "+fname(fn), e.ipos(in),
-				"a proposal of an unregistered/evicted session is rejected without touching the state machine", "the unknown-session path can reach the state machine update")
-			// and it reports rejected=true
-			okRej := false
-			forEachInstr(fn, func(x ssa.Instruction) {
-				ret, ok := x.(*ssa.Return)
-				if !ok || len(ret.Results) < 4 {
+			forEachInstr(fn, func(in ssa.Instruction) {
+				ifi, ok := in.(*ssa.If)
+				if !ok {
 					return
 				}
-				g, _ := e.guardedOnAllPaths(x, reqBool("", extractOf(reg, 1), false))
-				if g {
-					if cb, isC := isConstBool(retOperand(ret, 2)); isC && cb {
-						okRej = true
-					}
+				if !extractOf(reg, 1)(ifi.Cond) {
+					return
 				}
+				fsucc := in.Block().Succs[1]
+				if len(fsucc.Instrs) == 0 {
+					return
+				}
+				res := e.findPath(fn, fsucc.Instrs[0], reachesUpdate, nil, nil)
+				if reachesUpdate(fsucc.Instrs[0]) {
+					res.Found = true
+				}
+				r.check(!res.Found, "GD-session", "unknown session never reaches the state machine in "+fname(fn), e.ipos(in),
+					"a proposal of an unregistered/evicted session is rejected without touching the state machine", "the unknown-session path can reach the state machine update")
+				// and it reports rejected=true
+				okRej := false
+				forEachInstr(fn, func(x ssa.Instruction) {
+					ret, ok := x.(*ssa.Return)
+					if !ok || rejIdx < 0 || len(ret.Results) <= rejIdx {
+						return
+					}
+					g, _ := e.guardedOnAllPaths(x, reqBool("", extractOf(reg, 1), false))
+					if g {
+						if cb, isC := isConstBool(retOperand(ret, rejIdx)); isC && cb {
+							okRej = true
+						}
+					}
+				})
+				r.check(okRej, "GD-session", "unknown session is reported rejected in "+fname(fn), e.ipos(in), "rejected=true on the unknown-session path", "the unknown-session path no longer reports rejected")
 			})
-			r.check(okRej, "GD-session", "unknown session is reported rejected in "+fname(fn), e.ipos(in), "rejected=true on the unknown-session path", "the unknown-session path no longer reports rejected")
-		})
+		}
 	}
 	r.floor("GD-session", n, 1)
 
